@@ -161,6 +161,46 @@ def rule_shared_table(rep: Report, rid="C15.shared") -> None:
             if bad:
                 rep.ob(rid, "the shared dialect table is never modified", False, file=fi.file, line=node.lineno, function=fi.qualname, expected="read-only", found=bad)
     rep.ob(rid, "the shared dialect table is only read", True, file=DFILE, function="gherkin.dialect", expected="no store/mutator on DIALECTS", found=f"{n} read site(s) inspected")
+    # ... nor through a value read out of it: on the normal forms of the Dialect members and of every match_<Kind>, no in-place
+    # change (append/extend/+=/item store ...) has a target that is part of the table (the spec of a Dialect, a keyword list)
+    def rooted(t, depth=0):
+        if not isinstance(t, tuple) or not t or depth > 12:
+            return False
+        if t[0] == "global" and len(t) > 2 and t[2] == "DIALECTS":
+            return True
+        if t[0] == "attr" and (t[2] == "spec" or t[2].endswith("_keywords")):
+            return True
+        if t[0] in ("item", "attr", "slice", "dropnone") and isinstance(t[1], tuple):
+            return rooted(t[1], depth + 1)
+        if t[0] == "cond":
+            return rooted(t[2], depth + 1) or rooted(t[3], depth + 1)
+        return False
+    inspected = 0
+    dcls = f.cls("gherkin.dialect.Dialect")
+    trees = []
+    for fi in dcls.all_methods():
+        if fi.name == "__init__":
+            continue
+        I = new_interp()
+        try:
+            tree, rv, st = I.run(fi.qualname)
+        except AnalysisError:
+            continue
+        trees.append((I, fi, tree))
+    for cq in (mr.MQ, "gherkin.token_matcher_markdown.GherkinInMarkdownTokenMatcher"):
+        M = mr.mnf(cq)
+        for m in M.methods.values():
+            trees.append((m.I, m.fi, m.tree))
+    for I, fi, tree in trees:
+        for node, ctx in nf.iter_nodes(tree):
+            if node[0] in ("mutate", "setitem"):
+                inspected += 1
+                if rooted(node[1]):
+                    line = next((x for x in reversed(node) if isinstance(x, int) and not isinstance(x, bool)), fi.node.lineno)
+                    rep.ob(rid, "a value read out of the dialect table is never changed in place", False, file=fi.file, line=line, function=fi.qualname,
+                           expected="copy before extending (a + b, list(a))", found=f"{node[0]} {node[2] if node[0] == 'mutate' else ''} on {fmt(node[1], I)[:100]}")
+    rep.ob(rid, "values read out of the dialect table are only read", True, file=DFILE, function="gherkin.dialect", expected="no in-place change",
+           found=f"{inspected} in-place change(s) on other objects inspected in {len(trees)} normal forms")
 
 
 def rule_header(rep: Report, rid="C05.header") -> None:
